@@ -32,6 +32,14 @@ contains the country-specific identifier.
 'ES23ZZZ47690558N'
 >>> validate('ES2300047690558N')
 'ES2300047690558N'
+>>> validate('ES2L00047690558N')  # check digits should be digits
+Traceback (most recent call last):
+    ...
+InvalidFormat: ...
+>>> validate('ES23ZZZ47690558!')
+Traceback (most recent call last):
+    ...
+InvalidFormat: ...
 >>> compact('ES++()+23ZZZ4//7690558N')
 'ES23ZZZ47690558N'
 >>> calc_check_digits('ESXXZZZ47690558N')
@@ -40,7 +48,7 @@ contains the country-specific identifier.
 
 from stdnum.exceptions import *
 from stdnum.iso7064 import mod_97_10
-from stdnum.util import clean
+from stdnum.util import clean, isdigits
 
 
 # the valid characters we have
@@ -63,6 +71,8 @@ def _to_base10(number):
 def validate(number):
     """Check if the number provided is a valid AT-02."""
     number = compact(number)
+    if not isdigits(number[2:4]) or any(x not in _alphabet for x in number[4:7]):
+        raise InvalidFormat()
     try:
         test_number = _to_base10(number)
     except Exception:  # noqa: B902
